@@ -63,7 +63,10 @@ RULE = ("api cases: a generated ranked rule system (3-7 variables: int/float/boo
         "get_parameters_at_instant on every mentioned date, the day before and 40 days later); yaml cases: one system and a file of 10-14 "
         "tests, each 1-3 expectations in the by-variable / by-entity / by-instance layout, scalar / list / per-period "
         "forms, margins absent / absolute / relative / both / per-variable maps, expected values chosen equal, inside, "
-        "exactly at and beyond the margin from the real engine values.  A case is non-trivial when at least one slot "
+        "exactly at and beyond the margin from the real engine values; a float variable whose engine value is NaN, +inf or "
+        "-inf (in YAML tests: must fail whatever is expected; in /calculate and /trace: oracle only); one population of "
+        "66000-71000 one-person households per run whose group aggregate is expected by variable and by instance (oracle "
+        "only, expected values in closed form).  A case is non-trivial when at least one slot "
         "was filled with a formula result (api) or at least one test passes and one fails (yaml); distinct by JSON text.  "
         "Quick tier: 100 application instances (about 520 POST requests, half of them also answered by the Engine.v "
         "machine, and 130 listing requests) and 56 YAML files (about 670 tests)")
@@ -137,7 +140,7 @@ def enc_case(case):
     c = dict(case)
     if c["kind"] == "api":
         c["docs"] = [dict(e, doc=enc(e["doc"])) for e in c["docs"]]
-    else:
+    elif c["kind"] == "yaml":
         c["tests"] = [dict(t, input=enc(t["input"]), output=enc(t["output"])) for t in c["tests"]]
     return c
 
@@ -152,7 +155,7 @@ def D(case):
         c = dict(case)
         if c["kind"] == "api":
             c["docs"] = [dict(e, doc=dec(e["doc"])) for e in c["docs"]]
-        else:
+        elif c["kind"] == "yaml":
             c["tests"] = [dict(t, input=dec(t["input"]), output=dec(t["output"])) for t in c["tests"]]
         _DEC[k] = c
     return _DEC[k]
@@ -173,6 +176,8 @@ EXTRAS = {
     # float32 values that need 8-9 significant digits (or whose shortest text is not their value)
     "xg_p": {"type": "float", "ent": "person", "unit": "month", "hard": True},
     "xh_p": {"type": "float", "ent": "person", "unit": "month", "hard": True},
+    # NaN, +inf, -inf or 2.5 according to xi_p % 4
+    "xn_p": {"type": "float", "ent": "person", "unit": "month", "nonfinite": True},
 }
 
 
@@ -311,7 +316,19 @@ def build_tbs(sysj, ptree=None):
         def formula(population, period, parameters):
             return population("xg_p", period) * 1.1 / 3 + population("xi_p", period) / 7
 
-    for cls in (xi_p, xe_p, xe_h, xd_p, xd_h, xs_p, xf_h, xg_p, xh_p):
+    class xn_p(Variable):
+        value_type = float
+        entity = person
+        definition_period = DateUnit.MONTH
+
+        def formula(population, period, parameters):
+            k = population("xi_p", period) % 4
+            num = numpy.select([k == 0, k == 1, k == 2], [0.0, 1.0, -1.0], 2.5).astype(numpy.float32)
+            den = numpy.where(k == 3, 1.0, 0.0).astype(numpy.float32)
+            with numpy.errstate(all="ignore"):
+                return num / den          # 0/0, 1/0, -1/0, 2.5
+
+    for cls in (xi_p, xe_p, xe_h, xd_p, xd_h, xs_p, xf_h, xg_p, xh_p, xn_p):
         tbs.add_variable(cls)
     _KEEP.append(tbs)
     return tbs
@@ -350,7 +367,8 @@ def to_raws(variable, arr):
             out.append(["z", int(x)])
         else:
             if x != x or x in (float("inf"), float("-inf")):
-                raise Inexact(repr(x))
+                out.append(["n", "nan" if x != x else ("inf" if x > 0 else "-inf")])
+                continue
             x32 = numpy.float32(x)
             f = fractions.Fraction(float(x32))                      # the float32 value, exactly
             # the shortest decimal text that identifies the float32, read back as a double
@@ -389,6 +407,8 @@ def engine_values(tbs, situation, cells, default_period=None):
 
 def render_py(vinfo, raw):
     """the JSON value the property asks for: the engine's value in the variable's type"""
+    if raw[0] == "n":
+        return float(raw[1])
     if raw[0] == "f":
         return float(fractions.Fraction(*raw[1]))       # the float32 value (compared as float32, see [same])
     tag, x = raw
@@ -443,7 +463,7 @@ def flatten(doc):
 def leaf_obs(x):
     if isinstance(x, float):
         if x != x or x in (float("inf"), float("-inf")):
-            raise Inexact(repr(x))
+            return x                     # (such responses are judged by the oracle only)
         return fractions.Fraction(x)
     if isinstance(x, (dict, list)):
         return "<nested>"
@@ -773,6 +793,12 @@ def candidates(v, am, rm):
 def pick_expected(rng, vinfo, raw, am, rm, want):
     """an expected YAML value for one element and the position it really has"""
     t = vinfo["type"]
+    if raw[0] == "n":
+        # the engine's value is NaN or infinite: no finite expectation is within any margin of it (and the runner
+        # also refuses .nan / .inf: the difference is NaN).  Non-finite expectations only without a relative margin.
+        if rm is None and rng.random() < 0.3:
+            return float(rng.choice([raw[1], "nan"])), "nonfinite"
+        return rng.choice([0, 2.5, -1, 1000000.0, 1]), "nonfinite"
     if t in ("int", "float", "bool"):
         v = fr(raw)
         if t == "bool":
@@ -919,7 +945,7 @@ def gen_yaml_test(rng, sysj, vt, tbs, k):
                 e, g = pick_expected(rng, x, raw, am, rm, w)
                 exp.append(e)
                 got.append(g)
-        worst = "error" if "error" in got else ("beyond" if "beyond" in got else ("at" if "at" in got else
+        worst = "nonfinite" if "nonfinite" in got else "error" if "error" in got else ("beyond" if "beyond" in got else ("at" if "at" in got else
                                                 ("inside" if "inside" in got else "equal")))
         tags.append(f"{x['type']}/{layout}/{worst}")
 
@@ -963,7 +989,84 @@ def generate(rng, tier):
             cases.append(gen_api_case(rng))
         for _ in range(n_yaml):
             cases.append(gen_yaml_case(rng))
+        for _ in range({"quick": 1, "escalated": 1, "thorough": 3}[tier]):
+            cases.append(gen_big_case(rng))
     return cases
+
+
+# ---------------------------------------------------------------------------------------
+# a population above 65536 groups (oracle only: the expected values are known in closed form)
+# ---------------------------------------------------------------------------------------
+
+def gen_big_case(rng):
+    n = rng.choice([70000, 66000 + rng.randrange(5000)])
+    last = rng.randrange(65536, n)
+    return {"kind": "big", "sys": {"vars": [], "params": [], "switches": [], "max_loops": 1}, "n": n,
+            "first": last - 65536, "last": last, "a": rng.randint(2, 90), "b": rng.randint(91, 200),
+            "month": f"{rng.choice(rules.BASE_YEARS)}-{rng.randint(1, 12):02d}"}
+
+
+def run_big(case):
+    """n persons, no household declared: person k is alone in household k.  xf_h = 0.25 * (sum of xi_p of the
+    members) + 0.75, xi_p is 1 unless given: every household has 1.0, except the two whose member has an input.
+    Three YAML tests: the true values as a list (by variable), the true values by instance, and the values the
+    two households would have if the member of the one counted for the other (must fail)."""
+    import c20_pytest_plugin
+    from openfisca_core.tools.test_runner import run_tests
+
+    n, first, last, a, b, month = (case[k] for k in ("n", "first", "last", "a", "b", "month"))
+    tbs = build_tbs(case["sys"])
+    true = {first: a * 0.25 + 0.75, last: b * 0.25 + 0.75}
+    lines = []
+    persons = ["    persons:"] + [
+        f"      p{i}: {{xi_p: {{{month}: {a if i == first else b}}}}}" if i in (first, last) else f"      p{i}: {{}}"
+        for i in range(n)]
+    values = ", ".join(str(true.get(i, 1.0)) for i in range(n))
+    outputs = {
+        "big-true-by-variable": [f"    xf_h: [{values}]"],
+        "big-true-by-instance": ["    households:", f"      p{first}: {{xf_h: {true[first]}}}",
+                                 f"      p{last}: {{xf_h: {true[last]}}}", "      p0: {xf_h: 1.0}",
+                                 f"      p{n - 1}: {{xf_h: {true.get(n - 1, 1.0)}}}"],
+        "big-swapped-by-instance": ["    households:", f"      p{first}: {{xf_h: {(a + b) * 0.25 + 0.75}}}",
+                                    f"      p{last}: {{xf_h: 0.75}}"],
+    }
+    for name, out in outputs.items():
+        lines += [f"- name: {name}", f"  period: {month}", "  input:"] + persons + ["  output:"] + out
+    _RUN[0] += 1
+    d = SCRATCH / f"c20-run-{os.getpid()}-{_RUN[0]}"
+    d.mkdir(parents=True, exist_ok=True)
+    verdicts = {}
+    try:
+        (d / "tests.yaml").write_text("\n".join(lines) + "\n")
+        del c20_pytest_plugin.RESULTS[:]
+        old = {k: os.environ.get(k) for k in ("PYTEST_PLUGINS", "PYTEST_ADDOPTS")}
+        os.environ["PYTEST_PLUGINS"] = "c20_pytest_plugin"
+        os.environ["PYTEST_ADDOPTS"] = "-q --tb=no -p no:cacheprovider --rootdir=" + str(d)
+        try:
+            with contextlib.redirect_stdout(io.StringIO()), contextlib.redirect_stderr(io.StringIO()):
+                run_tests(tbs, [str(d / "tests.yaml")], {})
+        finally:
+            for k, v in old.items():
+                if v is None:
+                    os.environ.pop(k, None)
+                else:
+                    os.environ[k] = v
+        for name, exc in c20_pytest_plugin.RESULTS:
+            verdicts[name] = True if exc is None else (False if isinstance(exc, AssertionError) else
+                                                       Err(errkind(exc), f"{type(exc).__name__}: {exc}"[:160]))
+    finally:
+        shutil.rmtree(d, ignore_errors=True)
+    return {"big": [[name, verdicts.get(name, Err("EOther", "no verdict recorded"))] for name in outputs]}
+
+
+def oracle_big(case, obs):
+    want = {"big-true-by-variable": True, "big-true-by-instance": True, "big-swapped-by-instance": False}
+    for name, v in obs["big"]:
+        if (v is True) != want[name]:
+            return (f"verdict: {case['n']} persons in one-person households, xi_p given for p{case['first']} and "
+                    f"p{case['last']}: test {name} {'passes' if v is True else 'fails (' + repr(v) + ')'}, expected to "
+                    f"{'pass' if want[name] else 'fail'}")
+    return None
 
 
 # ---------------------------------------------------------------------------------------
@@ -1234,7 +1337,8 @@ def run_yaml(case):
 def run_impl(case):
     with warnings.catch_warnings():
         warnings.simplefilter("ignore")
-        obs = run_api(D(case)) if case["kind"] == "api" else run_yaml(D(case))
+        obs = run_big(case) if case["kind"] == "big" else \
+            run_api(D(case)) if case["kind"] == "api" else run_yaml(D(case))
     _AUX[_key(case)] = obs
     return obs
 
@@ -1267,6 +1371,8 @@ def craw(r):
     tag, x = r[0], r[1]
     if tag == "z":
         return f"(RZ {cz(x)})"
+    if tag == "n":
+        return "RNF"
     if tag == "f":
         return f"(RF {cq(fractions.Fraction(*r[1]))} {cq(fractions.Fraction(*r[2]))})"
     if tag == "q":
@@ -1319,6 +1425,8 @@ def coq_ops(case, obs):
             entry = case["docs"][op[1]]
             flat = flatten(entry["doc"])
             vals = [(tuple(c), v) for c, v in obs["values"].get(str(op[1]), [])]
+            if any(not isinstance(v, Err) and any(r[0] == "n" for r in v) for _, v in vals):
+                continue        # NaN / infinite engine values have no JSON leaf in the model: oracle only
             ids = cids(ids_of_doc(entry))
             cname = "OCalc" if kind == "calculate" else "OTrace"
             out.append((f"({cname} {ids} {ctable(vals)} {cdoc(flat)})", n))
@@ -1390,7 +1498,7 @@ def cytest(t, vt):
 
 def coq_case(case):
     obs = _AUX.get(_key(case))
-    if obs is None or isinstance(obs, Err) or obs.get("inexact"):
+    if obs is None or isinstance(obs, Err) or obs.get("inexact") or case["kind"] == "big":
         return "(KYaml [] [] [])"
     case = D(case)
     vt = var_table(case["sys"])
@@ -1401,6 +1509,8 @@ def coq_case(case):
                 f"{clist([o for o, _ in ops])})")
     tests = []
     for t, vals in zip(case["tests"], obs["values"]):
+        if nomodel(t):
+            continue
         ids = cids({"persons": t["pids"], "households": t["hids"]})
         tests.append(f"({ids}, {ctable([(tuple(c), v) for c, v in vals])}, {cytest(t, vt)})")
     return f"(KYaml {cvtable(vt)} [\"person\"; \"household\"] {clist(tests)})"
@@ -1422,12 +1532,23 @@ def op_obs_for_coq(o):
 def obs_for_coq(case, obs):
     if isinstance(obs, Err):
         return obs
-    if obs.get("inexact"):
+    if obs.get("inexact") or case["kind"] == "big":
         return []
     case = D(case)
     if case["kind"] == "api":
         return [op_obs_for_coq(obs["ops"][n]) for _, n in coq_ops(case, obs)]
-    return list(obs["verdicts"])
+    return [v for t, v in zip(case["tests"], obs["verdicts"]) if not nomodel(t)]
+
+
+def nomodel(test):
+    """an expected .nan / .inf has no leaf in the model: such a test is judged by the oracle only"""
+    def bad(x):
+        if isinstance(x, dict):
+            return any(bad(v) for v in x.values())
+        if isinstance(x, list):
+            return any(bad(v) for v in x)
+        return isinstance(x, float) and (x != x or x in (float("inf"), float("-inf")))
+    return bad(test["output"])
 
 
 # ---------------------------------------------------------------------------------------
@@ -1525,7 +1646,7 @@ def oracle_api(case, obs):
                     got = val[order.index(e[1])]
                     if isinstance(want_leaf, float):
                         # the trace gives the float32 value itself (tolist), /calculate its shortest text: equal as float32
-                        ok = isinstance(got, fractions.Fraction) and \
+                        ok = isinstance(got, (fractions.Fraction, float)) and \
                             numpy.float32(float(got)).tobytes() == numpy.float32(want_leaf).tobytes()
                     else:
                         ok = same(got, want_leaf)
@@ -1617,8 +1738,10 @@ def yaml_expected_pass(test, vals, vt):
             return False
         am, rm = effective_margins(test, name)
         for raw, t in pairs:
+            if raw[0] == "n":
+                return False              # nothing lies within a margin of NaN or of an infinite value
             if x["type"] in ("int", "float", "bool"):
-                if isinstance(t, str) or t is None:
+                if isinstance(t, str) or t is None or t != t or t in (float("inf"), float("-inf")):
                     return False
                 if not within(fr(raw), f32(t), am, rm):
                     return False
@@ -1652,6 +1775,8 @@ def oracle(case, obs):
         return f"driver: {obs.msg}"
     if obs.get("inexact"):
         return None
+    if case["kind"] == "big":
+        return oracle_big(case, obs)
     case = D(case)
     return oracle_api(case, obs) if case["kind"] == "api" else oracle_yaml(case, obs)
 
@@ -1663,6 +1788,8 @@ def oracle(case, obs):
 def nontrivial(case, obs):
     if isinstance(obs, Err) or obs.get("inexact"):
         return False
+    if case["kind"] == "big":
+        return True
     if case["kind"] == "api":
         return any(o["status"] == 200 and o["op"][0] == "calculate" for o in obs["ops"])
     vs = [v is True for v in obs["verdicts"]]
@@ -1674,6 +1801,8 @@ def classify(case, obs):
         return "driver-error"
     if obs.get("inexact"):
         return "skipped-inexact"
+    if case["kind"] == "big":
+        return "big-population"
     case = D(case)
     if case["kind"] == "api":
         n = sum(1 for op in case["ops"] if op[0] in ("calculate", "trace"))
@@ -1709,7 +1838,7 @@ def fails_fresh(case):
 def shrink(case, still_fails):
     """a YAML file is cut down to one failing test; a request sequence loses every operation it can.  Every
     candidate is tried in a new interpreter, so that the replay of the result fails by itself."""
-    if not fails_fresh(case):
+    if case["kind"] == "big" or not fails_fresh(case):
         return None
     if case["kind"] == "yaml":
         for t in case["tests"]:
